@@ -95,6 +95,46 @@ theorem C06_multiwriter_crash_points (H : SList → Nat) (B fuel : Nat) (hfuel :
   · obtain ⟨f, hf, hwf⟩ := List.mem_flatten.mp hw
     exact Or.inr ⟨f, hf, w, hwf, h5, h6⟩
 
+theorem mem_closesOf {ws : List WEff} {w : Dir × List Shard} (h : w ∈ closesOf ws) : ∃ sh, w.2 = [sh] ∧ WEff.close w.1 sh ∈ ws := by
+  induction ws with
+  | nil => simp [closesOf] at h
+  | cons e r ih =>
+    cases e with
+    | close d sh =>
+      simp only [closesOf, List.mem_cons] at h
+      rcases h with rfl | h
+      · exact ⟨sh, rfl, List.mem_cons_self⟩
+      · obtain ⟨sh', h1, h2⟩ := ih h; exact ⟨sh', h1, List.mem_cons_of_mem _ h2⟩
+    | rewrite d =>
+      simp only [closesOf] at h
+      obtain ⟨sh', h1, h2⟩ := ih h; exact ⟨sh', h1, List.mem_cons_of_mem _ h2⟩
+
+/-- **Worker processes, any schedule.**  With real worker processes the effects of the writers of a multi-writer call reach the
+disk in some interleaving `ws` (closed shards, each followed at once by a rewrite of its list; rewrites of lists as they stand),
+followed by the parent's merges.  For *every* such schedule and every prefix of the resulting installs: no dangling record, every
+committed shard still enumerated, nothing enumerated that was not committed or closed by a worker.  (`RewOK`: a rewrite targets a
+list that exists — a filler only rewrites lists it has written.) -/
+theorem C06_concurrent_writers_crash_points (H : SList → Nat) (B fuel : Nat) (hfuel : B < fuel + 1) (hB : 1 ≤ B) (ds : DS)
+    (ws : List WEff) (hse : ∀ w ∈ closesOf ws, w.1 ≠ [] ∧ w.1.length ≤ B) (hrw : RewOK ds.fs ws)
+    (hg : Good H B ds) (hi : SInv B ds.fs) (hl : Linked ds.fs) (k s : Nat) :
+    SInv B (applyInstalls ds.fs ((concurrentCallE H fuel ds ws).2.take k)) ∧
+    (∀ sh, sh ∈ shardsOf fuel ds.fs [s] → sh ∈ shardsOf fuel (applyInstalls ds.fs ((concurrentCallE H fuel ds ws).2.take k)) [s]) ∧
+    (∀ sh, sh ∈ shardsOf fuel (applyInstalls ds.fs ((concurrentCallE H fuel ds ws).2.take k)) [s] →
+      sh ∈ shardsOf fuel ds.fs [s] ∨ ∃ d, d.headD 0 = s ∧ WEff.close d sh ∈ ws) := by
+  obtain ⟨hv, hrest⟩ := concurrentCallE_spec H B fuel hfuel hB ds ws hse hi
+  obtain ⟨_, hst⟩ := hrest hrw
+  obtain ⟨h1, h2, h3⟩ := valid_crash_point B fuel ds.fs _ hv hi k [s] (by simpa using hB) (by simp; omega)
+  refine ⟨h1, h2, fun sh h => ?_⟩
+  have := h3 sh h
+  rw [← hst] at this
+  rcases (session_adds_exactly H B fuel hfuel hB ds (closesOf ws) hse hg hl s sh).mp this with h | ⟨w, hw, h5, h6⟩
+  · exact Or.inl h
+  · obtain ⟨sh', hw2, hmem⟩ := mem_closesOf hw
+    rw [hw2] at h6
+    simp only [List.mem_singleton] at h6
+    subst h6
+    exact Or.inr ⟨w.1, h5, hmem⟩
+
 /-- the order of the committed shards of every list is kept at every crash point -/
 theorem C06_crash_point_keeps_list_order (H : SList → Nat) (B fuel : Nat) (hfuel : B < fuel + 1) (hB : 1 ≤ B) (ds : DS) (se : Session)
     (hse : ∀ w ∈ se, w.1 ≠ [] ∧ w.1.length ≤ B) (hi : SInv B ds.fs) (k : Nat) (x : Dir) :
